@@ -505,5 +505,5 @@ func TestC13(t *testing.T) {
 	Ev.Level = "fault_enumeration"
 	Ev.Rule = "case = generated population (several engine configurations, partitions, optionally external-writer files) in a cloneable in-memory DataStore + MemoryMetaStore (in a third of the cases the Merge runs against a MetaStore that is the DataStore itself: every complete file the store holds is referenced, published at Close — the in-memory counterpart of the filesystem store used as MetaStore), and a merge configuration. Merge is run fault-free on a copy to number every store call (iterator start/yield, CreateFile, OpenFile, Read, Seek, Write, Close, Abort, Update, TombstoneFile); then ONCE PER POSITION on a fresh copy with a failure there (before the call; Write also short-write; Close also publish-then-fail). Oracle per run: row multiset and bytes preserved; if MetaStore.Update did not succeed: same pointers, source files byte-identical, no source tombstoned, no ErrPostCommitCleanup, and nil is not returned when the fault-free run merges; if it succeeded: pointers = before - deletes + writes, every committed output's Close succeeded before the Update, no Write to it had failed and its own footer parses, sources tombstoned only after it, error is nil or wraps ErrPostCommitCleanup (with stats) exactly when a source tombstone failed. Plus per population: three further Merge calls made one after the other while the first is gated inside CreateFile all return ErrMergeInProgress. Non-trivial: the fault fired in the second or a later group, or after the Update; distinct by hash(case, plan)."
 	Ev.Assumptions = []string{"MemoryMetaStore.Update is atomic", "faults are one-shot"}
-	runChecks(t, "faults", 12, 300, genC13(), runC13)
+	runChecks(t, "faults", 12, 3000, genC13(), runC13)
 }
